@@ -157,6 +157,20 @@ func TestVerif_C06_RefToLib(t *testing.T) {
 			}
 			if bad == "" {
 				m.Count("library_agrees", 1)
+				// "any non-zero byte is true" (specification 2.3): the same tree with its true Booleans written as another
+				// non-zero byte, as encoders other than this library's do, reads as the same tree
+				if sc == "" && hasTrue(tr) {
+					tb := byte(r.Pick(2, 0x7f, 0x80, 0xff))
+					d3 := refamf0.EncodeTrueAs(nil, tr, tb)
+					l3, err := decodeLib(d3)
+					if err != nil {
+						m.Violationf("c06:spec-encoding-rejected:boolean-nonzero", rep, "true written as %#02x: %v", tb, firstLine(err))
+					} else if ok, why := amfx.Matches(l3, tr); !ok || l3.Size() != len(d3) {
+						m.Violationf("c06:spec-encoding-misread:boolean-nonzero", rep, "true written as %#02x: %s (Size %d, %d bytes)", tb, why, l3.Size(), len(d3))
+					} else {
+						m.Count("trees_with_true_as_other_nonzero_byte", 1)
+					}
+				}
 				return
 			}
 			if sc != "" {
@@ -166,6 +180,23 @@ func TestVerif_C06_RefToLib(t *testing.T) {
 			}
 		})
 	})
+}
+
+func hasTrue(v *refamf0.Value) bool {
+	if v.Kind == refamf0.Boolean && v.Bool {
+		return true
+	}
+	for _, p := range v.Props {
+		if hasTrue(p.Val) {
+			return true
+		}
+	}
+	for _, it := range v.Items {
+		if hasTrue(it) {
+			return true
+		}
+	}
+	return false
 }
 
 func hasEcmaCountNE(v *refamf0.Value) bool {
